@@ -1118,8 +1118,18 @@ func runCancels(r *mon.Run) {
 		}
 		return false, false
 	}
+	// a state that cannot be set up (15 s each) is not retried endlessly
+	setupFails := map[string]int{}
 	runOne := func(i int) {
 		c := &cases[i]
+		sk := c.Target + c.Transport + "/" + c.Shape + ":" + c.State
+		wmu.Lock()
+		nf := setupFails[sk]
+		wmu.Unlock()
+		if nf >= 2 {
+			r.Count("cancel_skipped_state_could_not_be_set_up_twice", 1)
+			return
+		}
 		out := s.runScenario(c, func() {
 			wmu.Lock()
 			suspects[i] = wedge{c.Target + c.Transport, c.Opts}
@@ -1134,6 +1144,9 @@ func runCancels(r *mon.Run) {
 			debugScenario(c, out)
 		}
 		if out.inconclusive != "" {
+			wmu.Lock()
+			setupFails[sk]++
+			wmu.Unlock()
 			r.Inconclusive(out.inconclusive)
 			r.Count("cancel_inconclusive", 1)
 			return
